@@ -62,10 +62,16 @@ def run(ck):
     atxt = open(os.path.join(cdir, "AccessTab.v")).read() if os.path.exists(os.path.join(cdir, "AccessTab.v")) else ""
     mm = re.search(r'Definition min_tab : list \(N \* nat\) := \[(.*?)\]\.', atxt)
     minima = [(int(a), int(b)) for a, b in re.findall(r'\((\d+)%N, (\d+)\)', mm.group(1))] if mm else []
+    # smallest valid payload of the types that reach a queue, from the protocol comments of bidib_messages.h (independent of the
+    # code's own table): the guard must never drop a payload of at least this length
+    SPEC_MIN = {0x86: 1, 0x88: 1, 0x89: 9, 0x90: 2, 0xAC: 5, 0xB8: 5, 0xBA: 5, 0xB0: 1}
+    too_strict = [(ty, mn) for ty, mn in minima if ty in SPEC_MIN and mn > SPEC_MIN[ty]]
+    ck.oblige("the dispatcher's minimum data lengths do not exceed the protocol's smallest valid payload for any queue-routed type", not too_strict,
+              ", ".join("type %02x: %d > %d" % (ty, mn, SPEC_MIN[ty]) for ty, mn in too_strict))
     for debug in (1, 0):
-        for ty, mn in minima:
+        for ty, mn in sorted(set(minima) | set((t, dict(minima).get(t, 0)) for t in SPEC_MIN)):
             if ty == 0x8E: continue
-            for n in sorted(set([0, mn - 1, mn])):
+            for n in sorted(set([0, mn - 1, mn, SPEC_MIN.get(ty, mn) - 1, SPEC_MIN.get(ty, mn)])):
                 if n < 0: continue
                 data = [r.choice([0, 1, 2, 8, 0x80]) for _ in range(n)]
                 if ty == 0xA2 and n >= 2: data[1] = 0
@@ -110,7 +116,9 @@ def run(ck):
             inq = ("q " + hx) in il; ine = ("e " + hx) in il; ini = ("i " + hx) in il
             n_dest = inq + ine + ini
             why = None
-            short = kind == "guard" and len(flowgen.msg_fields(m)[3]) < dict(minima).get(ty, 0)
+            nd = len(flowgen.msg_fields(m)[3])
+            short = kind == "guard" and nd < SPEC_MIN.get(ty, dict(minima).get(ty, 0))          # not a valid payload: outside the property
+            if kind == "guard" and short and nd >= dict(minima).get(ty, 0): continue             # invalid but not dropped: unjudged
             if n_dest > 1: why = "message placed in more than one queue"
             elif debug and not inq: why = "debug mode: message not in the message queue"
             elif not debug and short:
